@@ -1,1 +1,1020 @@
-// placeholder
+//! Seeded operation histories over pools of tendrils, each paired with a `Vec<u8>` model
+//! (C11), an allocation ledger usable as global allocator (C12, native), and the same
+//! histories for Miri (C12).  Depends on `tendril` only.
+
+pub mod ledger;
+pub mod rng;
+
+use std::panic::{catch_unwind, AssertUnwindSafe};
+
+use rng::Rng;
+use tendril::fmt::{self, Format};
+use tendril::{Atomic, Atomicity, NonAtomic, SendTendril, SubtendrilError, Tendril};
+
+pub const POOL: usize = 6;
+
+#[derive(Clone, Debug, PartialEq, Eq)]
+pub struct Op {
+    pub kind: u8,
+    pub a: u32,
+    pub b: u32,
+    pub c: u32,
+    pub data: Vec<u8>,
+}
+
+pub const K_NEW: u8 = 0;
+pub const K_WITH_CAPACITY: u8 = 1;
+pub const K_FROM_BYTES: u8 = 2;
+pub const K_TRY_PUSH_BYTES: u8 = 3;
+pub const K_PUSH_TENDRIL: u8 = 4;
+pub const K_TRY_POP_FRONT: u8 = 5;
+pub const K_TRY_POP_BACK: u8 = 6;
+pub const K_POP_FRONT_PANIC: u8 = 7;
+pub const K_POP_BACK_PANIC: u8 = 8;
+pub const K_TRY_SUBTENDRIL: u8 = 9;
+pub const K_SUBTENDRIL_PANIC: u8 = 10;
+pub const K_CLONE: u8 = 11;
+pub const K_CLEAR: u8 = 12;
+pub const K_RESERVE: u8 = 13;
+pub const K_DROP: u8 = 14;
+pub const K_SEND_ROUND_TRIP: u8 = 15;
+pub const K_INTO_BYTES_ROUND_TRIP: u8 = 16;
+pub const K_AS_BYTES_CHECK: u8 = 17;
+pub const K_TRY_PUSH_CHAR: u8 = 18;
+pub const K_POP_FRONT_CHAR: u8 = 19;
+pub const K_POP_FRONT_CHAR_RUN: u8 = 20;
+pub const K_DEREF_MUT: u8 = 21;
+pub const K_WRITE_ALL: u8 = 22;
+pub const K_EXTEND_WITH_BYTE: u8 = 23;
+pub const K_EXTEND_ITER: u8 = 24;
+pub const K_SUBSET_ROUND_TRIP: u8 = 25;
+pub const K_REINTERPRET_FROM_BYTES: u8 = 26;
+pub const K_STRING_ROUND_TRIP: u8 = 27;
+pub const K_EQ_ORD_CHECK: u8 = 28;
+pub const K_PUSH_SELF_CLONE: u8 = 29;
+pub const N_KINDS: u8 = 30;
+
+pub fn kind_name(k: u8) -> &'static str {
+    match k {
+        K_NEW => "new",
+        K_WITH_CAPACITY => "with_capacity",
+        K_FROM_BYTES => "try_from_byte_slice",
+        K_TRY_PUSH_BYTES => "try_push_bytes",
+        K_PUSH_TENDRIL => "push_tendril",
+        K_TRY_POP_FRONT => "try_pop_front",
+        K_TRY_POP_BACK => "try_pop_back",
+        K_POP_FRONT_PANIC => "pop_front",
+        K_POP_BACK_PANIC => "pop_back",
+        K_TRY_SUBTENDRIL => "try_subtendril",
+        K_SUBTENDRIL_PANIC => "subtendril",
+        K_CLONE => "clone",
+        K_CLEAR => "clear",
+        K_RESERVE => "reserve",
+        K_DROP => "drop",
+        K_SEND_ROUND_TRIP => "into_send+from",
+        K_INTO_BYTES_ROUND_TRIP => "into_bytes+try_reinterpret",
+        K_AS_BYTES_CHECK => "as_bytes",
+        K_TRY_PUSH_CHAR => "try_push_char",
+        K_POP_FRONT_CHAR => "pop_front_char",
+        K_POP_FRONT_CHAR_RUN => "pop_front_char_run",
+        K_DEREF_MUT => "deref_mut",
+        K_WRITE_ALL => "io::Write::write_all",
+        K_EXTEND_WITH_BYTE => "extend_with_byte",
+        K_EXTEND_ITER => "extend",
+        K_SUBSET_ROUND_TRIP => "subset/superset round trip",
+        K_REINTERPRET_FROM_BYTES => "bytes.try_reinterpret",
+        K_STRING_ROUND_TRIP => "String round trip",
+        K_EQ_ORD_CHECK => "eq/ord",
+        K_PUSH_SELF_CLONE => "push_tendril(clone of self)",
+        _ => "?",
+    }
+}
+
+#[derive(Clone, Debug)]
+pub struct Fail {
+    pub class: String,
+    pub detail: String,
+}
+
+fn fail(class: &str, detail: String) -> Fail {
+    Fail { class: class.to_string(), detail }
+}
+
+// ------------------------------------------------------------------ independent validators
+
+pub fn wtf8_valid(buf: &[u8]) -> bool {
+    // generalized UTF-8 (surrogates allowed) without a lead surrogate directly followed by a trail
+    let mut i = 0;
+    let mut prev_lead = false;
+    while i < buf.len() {
+        let b0 = buf[i];
+        let (len, min, mut cp) = if b0 < 0x80 {
+            (1, 0u32, b0 as u32)
+        } else if (0xC0..0xE0).contains(&b0) {
+            (2, 0x80, (b0 & 0x1F) as u32)
+        } else if (0xE0..0xF0).contains(&b0) {
+            (3, 0x800, (b0 & 0x0F) as u32)
+        } else if (0xF0..0xF8).contains(&b0) {
+            (4, 0x10000, (b0 & 0x07) as u32)
+        } else {
+            return false;
+        };
+        if i + len > buf.len() {
+            return false;
+        }
+        for k in 1..len {
+            let b = buf[i + k];
+            if b & 0xC0 != 0x80 {
+                return false;
+            }
+            cp = (cp << 6) | (b & 0x3F) as u32;
+        }
+        if cp < min || cp > 0x10FFFF {
+            return false;
+        }
+        let lead = (0xD800..0xDC00).contains(&cp);
+        let trail = (0xDC00..0xE000).contains(&cp);
+        if trail && prev_lead {
+            return false;
+        }
+        prev_lead = lead;
+        i += len;
+    }
+    true
+}
+
+fn enc_generalized(cp: u32, out: &mut Vec<u8>) {
+    if cp < 0x80 {
+        out.push(cp as u8);
+    } else if cp < 0x800 {
+        out.push(0xC0 | (cp >> 6) as u8);
+        out.push(0x80 | (cp & 0x3F) as u8);
+    } else if cp < 0x10000 {
+        out.push(0xE0 | (cp >> 12) as u8);
+        out.push(0x80 | ((cp >> 6) & 0x3F) as u8);
+        out.push(0x80 | (cp & 0x3F) as u8);
+    } else {
+        out.push(0xF0 | (cp >> 18) as u8);
+        out.push(0x80 | ((cp >> 12) & 0x3F) as u8);
+        out.push(0x80 | ((cp >> 6) & 0x3F) as u8);
+        out.push(0x80 | (cp & 0x3F) as u8);
+    }
+}
+
+// ------------------------------------------------------------------ per-format spec
+
+pub trait FmtSpec: Format + Sized + 'static {
+    const NAME: &'static str;
+    /// model's own idea of validity (never tendril's)
+    fn valid(buf: &[u8]) -> bool;
+    /// model of appending valid `rhs` to valid `lhs`
+    fn concat(lhs: &mut Vec<u8>, rhs: &[u8]) {
+        lhs.extend_from_slice(rhs);
+    }
+    fn gen_valid(rng: &mut Rng, len: usize) -> Vec<u8>;
+    fn encode_char(_c: char) -> Option<Vec<u8>> {
+        None
+    }
+    /// decode the first character of a valid buffer: (char, byte length)
+    fn first_char(_buf: &[u8]) -> Option<(char, usize)> {
+        None
+    }
+    fn try_push_char<A: Atomicity>(_t: &mut Tendril<Self, A>, _c: char) -> Option<Result<(), ()>> {
+        None
+    }
+    fn pop_front_char<A: Atomicity>(_t: &mut Tendril<Self, A>) -> Option<Option<char>> {
+        None
+    }
+    fn pop_front_char_run<A: Atomicity>(_t: &mut Tendril<Self, A>, _k: u32) -> Option<Option<(Tendril<Self, A>, u32)>> {
+        None
+    }
+    /// a write through DerefMut; returns false when unsupported
+    fn deref_mut_write<A: Atomicity>(_t: &mut Tendril<Self, A>, _model: &mut Vec<u8>, _pos: u32, _val: u8) -> bool {
+        false
+    }
+    fn bytes_only<A: Atomicity>(_t: &mut Tendril<Self, A>, _model: &mut Vec<u8>, _op: &Op) -> bool {
+        false
+    }
+    fn extend_iter<A: Atomicity>(_t: &mut Tendril<Self, A>, _model: &mut Vec<u8>, _data: &[u8]) -> bool {
+        false
+    }
+    /// subset / superset round trip; returns Err(detail) on a wrong answer
+    fn subset_round_trip<A: Atomicity>(t: Tendril<Self, A>, _model: &[u8]) -> Result<Tendril<Self, A>, String> {
+        Ok(t)
+    }
+    fn string_round_trip<A: Atomicity>(t: Tendril<Self, A>) -> Tendril<Self, A> {
+        t
+    }
+}
+
+fn classify(k: u32, c: char) -> u32 {
+    match k % 4 {
+        0 => c.is_ascii_whitespace() as u32,
+        1 => c.is_alphabetic() as u32,
+        2 => (c as u32) % 3,
+        _ => ((c as u32) < 0x80) as u32,
+    }
+}
+
+fn gen_ascii(rng: &mut Rng, len: usize) -> Vec<u8> {
+    (0..len).map(|_| *rng.pick(b"abcXYZ 09\n\t<&")).collect()
+}
+
+fn gen_utf8(rng: &mut Rng, len: usize) -> Vec<u8> {
+    let mut s = String::new();
+    while s.len() < len {
+        let c = *rng.pick(&['a', 'b', ' ', 'Z', '\n', 'é', 'ß', '中', '€', '😀', '\u{10ffff}', '\0', '<']);
+        if s.len() + c.len_utf8() > len {
+            s.push('x');
+        } else {
+            s.push(c);
+        }
+    }
+    s.into_bytes()
+}
+
+impl FmtSpec for fmt::Bytes {
+    const NAME: &'static str = "Bytes";
+    fn valid(_: &[u8]) -> bool {
+        true
+    }
+    fn gen_valid(rng: &mut Rng, len: usize) -> Vec<u8> {
+        (0..len).map(|_| rng.below(256) as u8).collect()
+    }
+    fn deref_mut_write<A: Atomicity>(t: &mut Tendril<Self, A>, model: &mut Vec<u8>, pos: u32, val: u8) -> bool {
+        if model.is_empty() {
+            return true;
+        }
+        let p = pos as usize % model.len();
+        t[p] = val;
+        model[p] = val;
+        true
+    }
+    fn bytes_only<A: Atomicity>(t: &mut Tendril<Self, A>, model: &mut Vec<u8>, op: &Op) -> bool {
+        use std::io::Write;
+        match op.kind {
+            K_WRITE_ALL => {
+                t.write_all(&op.data).unwrap();
+                let n = t.write(&op.data).unwrap();
+                assert_eq!(n, op.data.len());
+                t.flush().unwrap();
+                model.extend_from_slice(&op.data);
+                model.extend_from_slice(&op.data);
+                true
+            },
+            K_EXTEND_WITH_BYTE => {
+                t.extend_with_byte(op.b, op.c as u8);
+                model.extend(std::iter::repeat(op.c as u8).take(op.b as usize));
+                true
+            },
+            _ => false,
+        }
+    }
+    fn extend_iter<A: Atomicity>(t: &mut Tendril<Self, A>, model: &mut Vec<u8>, data: &[u8]) -> bool {
+        t.extend(data.iter());
+        t.extend(data.iter().cloned());
+        t.extend([data, data].iter().cloned());
+        for _ in 0..4 {
+            model.extend_from_slice(data);
+        }
+        true
+    }
+}
+
+impl FmtSpec for fmt::ASCII {
+    const NAME: &'static str = "ASCII";
+    fn valid(buf: &[u8]) -> bool {
+        buf.iter().all(|b| *b < 0x80)
+    }
+    fn gen_valid(rng: &mut Rng, len: usize) -> Vec<u8> {
+        gen_ascii(rng, len)
+    }
+    fn encode_char(c: char) -> Option<Vec<u8>> {
+        if (c as u32) < 0x80 {
+            Some(vec![c as u8])
+        } else {
+            None
+        }
+    }
+    fn first_char(buf: &[u8]) -> Option<(char, usize)> {
+        buf.first().map(|b| (*b as char, 1))
+    }
+    fn try_push_char<A: Atomicity>(t: &mut Tendril<Self, A>, c: char) -> Option<Result<(), ()>> {
+        Some(t.try_push_char(c))
+    }
+    fn pop_front_char<A: Atomicity>(t: &mut Tendril<Self, A>) -> Option<Option<char>> {
+        Some(t.pop_front_char())
+    }
+    fn pop_front_char_run<A: Atomicity>(t: &mut Tendril<Self, A>, k: u32) -> Option<Option<(Tendril<Self, A>, u32)>> {
+        Some(t.pop_front_char_run(|c| classify(k, c)))
+    }
+    fn subset_round_trip<A: Atomicity>(t: Tendril<Self, A>, model: &[u8]) -> Result<Tendril<Self, A>, String> {
+        let up: Tendril<fmt::UTF8, A> = t.into_superset();
+        if up.as_bytes().as_ref() as &[u8] != model {
+            return Err("ASCII into_superset::<UTF8> changed the bytes".into());
+        }
+        let lat: Tendril<fmt::Latin1, A> = up.try_into_subset::<fmt::ASCII>().map_err(|_| "UTF8.try_into_subset::<ASCII> failed on ASCII content".to_string())?.into_superset();
+        lat.try_into_subset::<fmt::ASCII>().map_err(|_| "Latin1.try_into_subset::<ASCII> failed on ASCII content".to_string())
+    }
+}
+
+impl FmtSpec for fmt::Latin1 {
+    const NAME: &'static str = "Latin1";
+    fn valid(_: &[u8]) -> bool {
+        true
+    }
+    fn gen_valid(rng: &mut Rng, len: usize) -> Vec<u8> {
+        (0..len).map(|_| rng.below(256) as u8).collect()
+    }
+    fn encode_char(c: char) -> Option<Vec<u8>> {
+        if (c as u32) < 0x100 {
+            Some(vec![c as u32 as u8])
+        } else {
+            None
+        }
+    }
+    fn first_char(buf: &[u8]) -> Option<(char, usize)> {
+        buf.first().map(|b| (*b as char, 1))
+    }
+    fn try_push_char<A: Atomicity>(t: &mut Tendril<Self, A>, c: char) -> Option<Result<(), ()>> {
+        Some(t.try_push_char(c))
+    }
+    fn pop_front_char<A: Atomicity>(t: &mut Tendril<Self, A>) -> Option<Option<char>> {
+        Some(t.pop_front_char())
+    }
+    fn pop_front_char_run<A: Atomicity>(t: &mut Tendril<Self, A>, k: u32) -> Option<Option<(Tendril<Self, A>, u32)>> {
+        Some(t.pop_front_char_run(|c| classify(k, c)))
+    }
+    fn subset_round_trip<A: Atomicity>(t: Tendril<Self, A>, model: &[u8]) -> Result<Tendril<Self, A>, String> {
+        let ascii = model.iter().all(|b| *b < 0x80);
+        match t.try_into_subset::<fmt::ASCII>() {
+            Ok(a) => {
+                if !ascii {
+                    return Err("Latin1.try_into_subset::<ASCII> succeeded on non-ASCII content".into());
+                }
+                Ok(a.into_superset())
+            },
+            Err(orig) => {
+                if ascii {
+                    return Err("Latin1.try_into_subset::<ASCII> failed on ASCII content".into());
+                }
+                Ok(orig)
+            },
+        }
+    }
+}
+
+impl FmtSpec for fmt::UTF8 {
+    const NAME: &'static str = "UTF8";
+    fn valid(buf: &[u8]) -> bool {
+        std::str::from_utf8(buf).is_ok()
+    }
+    fn gen_valid(rng: &mut Rng, len: usize) -> Vec<u8> {
+        gen_utf8(rng, len)
+    }
+    fn encode_char(c: char) -> Option<Vec<u8>> {
+        Some(c.to_string().into_bytes())
+    }
+    fn first_char(buf: &[u8]) -> Option<(char, usize)> {
+        std::str::from_utf8(buf).ok()?.chars().next().map(|c| (c, c.len_utf8()))
+    }
+    fn try_push_char<A: Atomicity>(t: &mut Tendril<Self, A>, c: char) -> Option<Result<(), ()>> {
+        // push_char is the UTF-8 specific infallible variant
+        if (c as u32) % 2 == 0 {
+            t.push_char(c);
+            Some(Ok(()))
+        } else {
+            Some(t.try_push_char(c))
+        }
+    }
+    fn pop_front_char<A: Atomicity>(t: &mut Tendril<Self, A>) -> Option<Option<char>> {
+        Some(t.pop_front_char())
+    }
+    fn pop_front_char_run<A: Atomicity>(t: &mut Tendril<Self, A>, k: u32) -> Option<Option<(Tendril<Self, A>, u32)>> {
+        Some(t.pop_front_char_run(|c| classify(k, c)))
+    }
+    fn deref_mut_write<A: Atomicity>(t: &mut Tendril<Self, A>, model: &mut Vec<u8>, _pos: u32, _val: u8) -> bool {
+        let s: &mut str = &mut *t;
+        s.make_ascii_uppercase();
+        model.make_ascii_uppercase();
+        true
+    }
+    fn extend_iter<A: Atomicity>(t: &mut Tendril<Self, A>, model: &mut Vec<u8>, data: &[u8]) -> bool {
+        let s = String::from_utf8_lossy(data).into_owned();
+        t.extend(s.chars());
+        t.extend([s.as_str(), "z"].iter().cloned());
+        model.extend_from_slice(s.as_bytes());
+        model.extend_from_slice(s.as_bytes());
+        model.push(b'z');
+        true
+    }
+    fn subset_round_trip<A: Atomicity>(t: Tendril<Self, A>, model: &[u8]) -> Result<Tendril<Self, A>, String> {
+        let ascii = model.iter().all(|b| *b < 0x80);
+        if t.try_as_subset::<fmt::ASCII>().is_ok() != ascii {
+            return Err(format!("UTF8.try_as_subset::<ASCII> answered {} for ascii={}", !ascii, ascii));
+        }
+        let t = match t.try_into_subset::<fmt::ASCII>() {
+            Ok(a) => {
+                if !ascii {
+                    return Err("UTF8.try_into_subset::<ASCII> succeeded on non-ASCII content".into());
+                }
+                a.into_superset::<fmt::UTF8>()
+            },
+            Err(orig) => {
+                if ascii {
+                    return Err("UTF8.try_into_subset::<ASCII> failed on ASCII content".into());
+                }
+                orig
+            },
+        };
+        // up to WTF-8 and back
+        let w: Tendril<fmt::WTF8, A> = t.into_superset();
+        w.try_into_subset::<fmt::UTF8>().map_err(|_| "WTF8.try_into_subset::<UTF8> failed on UTF-8 content".to_string())
+    }
+    fn string_round_trip<A: Atomicity>(t: Tendril<Self, A>) -> Tendril<Self, A> {
+        let s: String = t.into();
+        let t2: Tendril<Self, A> = Tendril::from(s);
+        let s2 = String::from(&t2);
+        Tendril::from_slice(&s2[..])
+    }
+}
+
+impl FmtSpec for fmt::WTF8 {
+    const NAME: &'static str = "WTF8";
+    fn valid(buf: &[u8]) -> bool {
+        wtf8_valid(buf)
+    }
+    fn concat(lhs: &mut Vec<u8>, rhs: &[u8]) {
+        // join a trailing lead surrogate with a leading trail surrogate
+        if lhs.len() >= 3 && rhs.len() >= 3 {
+            let l = &lhs[lhs.len() - 3..];
+            let r = &rhs[..3];
+            let is_sur = |b: &[u8], lo: u8, hi: u8| b[0] == 0xED && b[1] >= lo && b[1] <= hi && (b[2] & 0xC0) == 0x80;
+            if is_sur(l, 0xA0, 0xAF) && is_sur(r, 0xB0, 0xBF) {
+                let hi = (((l[1] & 0x0F) as u32) << 6) | (l[2] & 0x3F) as u32;
+                let lo = (((r[1] & 0x0F) as u32) << 6) | (r[2] & 0x3F) as u32;
+                let cp = 0x10000 + (hi << 10) + lo;
+                let n = lhs.len() - 3;
+                lhs.truncate(n);
+                enc_generalized(cp, lhs);
+                lhs.extend_from_slice(&rhs[3..]);
+                return;
+            }
+        }
+        lhs.extend_from_slice(rhs);
+    }
+    fn gen_valid(rng: &mut Rng, len: usize) -> Vec<u8> {
+        let mut out = Vec::new();
+        let mut prev_lead = false;
+        while out.len() < len {
+            let cp: u32 = match rng.below(8) {
+                0 => 0xD800 + rng.below(0x400) as u32,
+                1 => 0xDC00 + rng.below(0x400) as u32,
+                2 => 0x10000 + rng.below(0x1000) as u32,
+                3 => 0xE9,
+                4 => 0x4E2D,
+                _ => b'a' as u32 + rng.below(26) as u32,
+            };
+            let trail = (0xDC00..0xE000).contains(&cp);
+            if trail && prev_lead {
+                continue;
+            }
+            prev_lead = (0xD800..0xDC00).contains(&cp);
+            enc_generalized(cp, &mut out);
+        }
+        out
+    }
+    fn subset_round_trip<A: Atomicity>(t: Tendril<Self, A>, model: &[u8]) -> Result<Tendril<Self, A>, String> {
+        let utf8 = std::str::from_utf8(model).is_ok();
+        match t.try_into_subset::<fmt::UTF8>() {
+            Ok(u) => {
+                if !utf8 {
+                    return Err("WTF8.try_into_subset::<UTF8> succeeded on content with surrogates".into());
+                }
+                Ok(u.into_superset())
+            },
+            Err(orig) => {
+                if utf8 {
+                    return Err("WTF8.try_into_subset::<UTF8> failed on UTF-8 content".into());
+                }
+                Ok(orig)
+            },
+        }
+    }
+}
+
+// ------------------------------------------------------------------ generation
+
+const LENS: &[usize] = &[0, 1, 2, 3, 4, 7, 8, 9, 15, 16, 17, 24, 31, 32, 33, 40, 63, 64, 65];
+
+fn pick_len(rng: &mut Rng) -> usize {
+    if rng.chance(1, 40) {
+        rng.range(100, 600)
+    } else {
+        *rng.pick(LENS)
+    }
+}
+
+fn invalid_bytes(rng: &mut Rng) -> Vec<u8> {
+    let mut v = b"ab".to_vec();
+    match rng.below(7) {
+        0 => v.push(0x80),
+        1 => v.extend_from_slice(&[0xC3]),
+        2 => v.extend_from_slice(&[0xE4, 0xB8]),
+        3 => v.extend_from_slice(&[0xF0, 0x9F, 0x98]),
+        4 => v.extend_from_slice(&[0xED, 0xA0, 0x80, 0xED, 0xB0, 0x80]),
+        5 => v.extend_from_slice(&[0xC0, 0xAF]),
+        _ => v.extend_from_slice(&[0xFF, b'z']),
+    }
+    if rng.chance(1, 2) {
+        v.extend_from_slice(b"cd");
+    }
+    v
+}
+
+/// Generate a history.  Offsets are generated relative to "typical" lengths and taken
+/// modulo (len + 2) at execution time so that they stay meaningful while shrinking.
+pub fn gen_history<F: FmtSpec>(rng: &mut Rng, max_ops: usize) -> Vec<Op> {
+    let n = rng.range(4, max_ops.max(5));
+    let mut ops = Vec::with_capacity(n);
+    for _ in 0..n {
+        let kind = match rng.weighted(&[
+            2, 3, 8, 14, 9, 7, 7, 2, 2, 10, 2, 10, 3, 4, 6, 3, 3, 2, 5, 5, 4, 4, 2, 2, 3, 3, 3, 2, 2, 3,
+        ]) as u8
+        {
+            k if k < N_KINDS => k,
+            _ => K_CLONE,
+        };
+        let a = rng.below(POOL) as u32;
+        let mut b = rng.below(POOL) as u32;
+        let mut c = rng.below(80) as u32;
+        let mut data = vec![];
+        match kind {
+            K_WITH_CAPACITY | K_RESERVE => b = pick_len(rng) as u32,
+            K_FROM_BYTES | K_TRY_PUSH_BYTES | K_REINTERPRET_FROM_BYTES | K_WRITE_ALL | K_EXTEND_ITER => {
+                data = if rng.chance(1, 6) { invalid_bytes(rng) } else { let l = pick_len(rng); F::gen_valid(rng, l) };
+                if kind == K_WRITE_ALL || kind == K_EXTEND_ITER {
+                    data.truncate(40);
+                }
+            },
+            K_TRY_POP_FRONT | K_TRY_POP_BACK | K_POP_FRONT_PANIC | K_POP_BACK_PANIC => {
+                b = match rng.below(6) {
+                    0 => 0,
+                    1 => 1,
+                    2 => 1_000_000, // "whole length" marker, resolved at run time
+                    3 => 1_000_001, // length + 1: out of bounds
+                    _ => rng.below(40) as u32,
+                }
+            },
+            K_TRY_SUBTENDRIL | K_SUBTENDRIL_PANIC => {
+                b = rng.below(48) as u32; // offset
+                c = match rng.below(5) {
+                    0 => 1_000_000, // up to the end
+                    1 => 1_000_001, // one past the end
+                    _ => rng.below(40) as u32,
+                };
+                data = vec![rng.below(POOL) as u8]; // destination slot
+            },
+            K_TRY_PUSH_CHAR => {
+                c = *rng.pick(&['a' as u32, 'Z' as u32, 0xE9, 0xFF, 0x100, 0x4E2D, 0x1F600, 0x7F, 0x80, 0])
+            },
+            K_EXTEND_WITH_BYTE => b = pick_len(rng).min(64) as u32,
+            _ => {},
+        }
+        ops.push(Op { kind, a, b, c, data });
+    }
+    ops
+}
+
+// ------------------------------------------------------------------ execution
+
+pub trait Observer {
+    /// called after each executed operation with (kind, class before, class after)
+    fn op_done(&mut self, _kind: u8, _before: u8, _after: u8) {}
+}
+
+pub struct NoObserver;
+impl Observer for NoObserver {}
+
+fn repr_class<F: Format, A: Atomicity>(t: &Tendril<F, A>) -> u8 {
+    if t.is_shared() {
+        2
+    } else if t.len32() <= 8 {
+        0
+    } else {
+        1
+    }
+}
+
+fn resolve(n: u32, len: usize) -> u32 {
+    match n {
+        1_000_000 => len as u32,
+        1_000_001 => len as u32 + 1,
+        x => x,
+    }
+}
+
+fn expect_sub<F: FmtSpec>(model: &[u8], off: u32, len: u32) -> Result<Vec<u8>, SubtendrilError> {
+    let ml = model.len() as u32;
+    if off > ml || len > ml - off {
+        return Err(SubtendrilError::OutOfBounds);
+    }
+    let s = &model[off as usize..(off + len) as usize];
+    if !F::valid(s) {
+        return Err(SubtendrilError::ValidationFailed);
+    }
+    Ok(s.to_vec())
+}
+
+pub fn run_history<F: FmtSpec, A: Atomicity>(ops: &[Op], obs: &mut dyn Observer) -> Result<u64, Fail> {
+    let mut pool: Vec<Tendril<F, A>> = (0..POOL).map(|_| Tendril::new()).collect();
+    let mut model: Vec<Vec<u8>> = (0..POOL).map(|_| Vec::new()).collect();
+    let mut digest = 0u64;
+    for (oi, op) in ops.iter().enumerate() {
+        let i = op.a as usize % POOL;
+        let j = op.b as usize % POOL;
+        let before = repr_class(&pool[i]);
+        let ctx = |what: String| fail("value-differs", format!("op #{oi} {} on slot {i} ({}): {what}", kind_name(op.kind), F::NAME));
+        match op.kind {
+            K_NEW => {
+                pool[i] = Tendril::new();
+                model[i].clear();
+            },
+            K_WITH_CAPACITY => {
+                pool[i] = Tendril::with_capacity(op.b);
+                model[i].clear();
+            },
+            K_FROM_BYTES => match Tendril::<F, A>::try_from_byte_slice(&op.data) {
+                Ok(t) => {
+                    if !F::valid(&op.data) {
+                        return Err(ctx(format!("try_from_byte_slice accepted invalid {:?}", op.data)));
+                    }
+                    pool[i] = t;
+                    model[i] = op.data.clone();
+                },
+                Err(()) => {
+                    if F::valid(&op.data) {
+                        return Err(ctx(format!("try_from_byte_slice rejected valid {:?}", op.data)));
+                    }
+                },
+            },
+            K_TRY_PUSH_BYTES => {
+                let r = pool[i].try_push_bytes(&op.data);
+                let ok = F::valid(&op.data);
+                if r.is_ok() != ok {
+                    return Err(ctx(format!("try_push_bytes returned {:?}, model validity {}", r, ok)));
+                }
+                if ok {
+                    F::concat(&mut model[i], &op.data);
+                }
+            },
+            K_PUSH_TENDRIL => {
+                if i == j {
+                    let c = pool[j].clone();
+                    pool[i].push_tendril(&c);
+                } else {
+                    let (x, y) = if i < j {
+                        let (l, r) = pool.split_at_mut(j);
+                        (&mut l[i], &r[0])
+                    } else {
+                        let (l, r) = pool.split_at_mut(i);
+                        (&mut r[0], &l[j])
+                    };
+                    x.push_tendril(y);
+                }
+                let rhs = model[j].clone();
+                F::concat(&mut model[i], &rhs);
+            },
+            K_PUSH_SELF_CLONE => {
+                // a clone shares the buffer; a subtendril of it that is adjacent to self
+                let len = pool[i].len32();
+                let c = pool[i].clone();
+                let half = len / 2;
+                if let Ok(tail) = c.try_subtendril(half, len - half) {
+                    if let Ok(mut head) = c.try_subtendril(0, half) {
+                        head.push_tendril(&tail); // adjacent shared slices: zero-copy merge
+                        if head.as_bytes().as_ref() as &[u8] != &model[i][..] {
+                            return Err(ctx(format!("head+tail of a clone gave {:?}, model {:?}", head.as_bytes().as_ref() as &[u8], model[i])));
+                        }
+                        pool[j] = head;
+                        model[j] = model[i].clone();
+                    }
+                }
+            },
+            K_TRY_POP_FRONT | K_TRY_POP_BACK | K_POP_FRONT_PANIC | K_POP_BACK_PANIC => {
+                let n = resolve(op.b, model[i].len());
+                let front = matches!(op.kind, K_TRY_POP_FRONT | K_POP_FRONT_PANIC);
+                let ml = model[i].len() as u32;
+                let expect: Result<(), SubtendrilError> = if n == 0 {
+                    Ok(())
+                } else if n > ml {
+                    Err(SubtendrilError::OutOfBounds)
+                } else {
+                    let rest = if front { &model[i][n as usize..] } else { &model[i][..(ml - n) as usize] };
+                    if F::valid(rest) {
+                        Ok(())
+                    } else {
+                        Err(SubtendrilError::ValidationFailed)
+                    }
+                };
+                let got: Result<(), Option<SubtendrilError>> = match op.kind {
+                    K_TRY_POP_FRONT => pool[i].try_pop_front(n).map_err(Some),
+                    K_TRY_POP_BACK => pool[i].try_pop_back(n).map_err(Some),
+                    K_POP_FRONT_PANIC => {
+                        let t = &mut pool[i];
+                        catch_unwind(AssertUnwindSafe(|| t.pop_front(n))).map_err(|_| None)
+                    },
+                    _ => {
+                        let t = &mut pool[i];
+                        catch_unwind(AssertUnwindSafe(|| t.pop_back(n))).map_err(|_| None)
+                    },
+                };
+                let agree = match (&got, &expect) {
+                    (Ok(()), Ok(())) => true,
+                    (Err(Some(a)), Err(b)) => a == b,
+                    (Err(None), Err(_)) => true,
+                    _ => false,
+                };
+                if !agree {
+                    return Err(fail("checked-op-result-differs", format!("op #{oi} {}({n}) on slot {i} ({}), content {:?}: returned {:?}, model says {:?}", kind_name(op.kind), F::NAME, model[i], got, expect)));
+                }
+                if expect.is_ok() {
+                    if front {
+                        model[i].drain(..n as usize);
+                    } else {
+                        let l = model[i].len() - n as usize;
+                        model[i].truncate(l);
+                    }
+                }
+            },
+            K_TRY_SUBTENDRIL | K_SUBTENDRIL_PANIC => {
+                let dst = op.data.first().cloned().unwrap_or(0) as usize % POOL;
+                let ml = model[i].len();
+                let off = if op.b as usize > ml + 1 { (op.b as usize % (ml + 2)) as u32 } else { op.b };
+                let len = match op.c {
+                    1_000_000 => (ml as u32).saturating_sub(off),
+                    1_000_001 => (ml as u32).saturating_sub(off) + 1,
+                    x => x,
+                };
+                let expect = expect_sub::<F>(&model[i], off, len);
+                let got: Result<Tendril<F, A>, Option<SubtendrilError>> = if op.kind == K_TRY_SUBTENDRIL {
+                    pool[i].try_subtendril(off, len).map_err(Some)
+                } else {
+                    let t = &pool[i];
+                    catch_unwind(AssertUnwindSafe(|| t.subtendril(off, len))).map_err(|_| None)
+                };
+                match (got, expect) {
+                    (Ok(t), Ok(m)) => {
+                        pool[dst] = t;
+                        model[dst] = m;
+                    },
+                    (Err(Some(a)), Err(b)) if a == b => {},
+                    (Err(None), Err(_)) => {},
+                    (g, e) => {
+                        return Err(fail("checked-op-result-differs", format!("op #{oi} {}({off},{len}) on slot {i} ({}), content {:?}: returned {:?}, model says {:?}", kind_name(op.kind), F::NAME, model[i], g.map(|t| t.as_bytes().to_vec()), e)));
+                    },
+                }
+            },
+            K_CLONE => {
+                let c = pool[i].clone();
+                pool[j] = c;
+                model[j] = model[i].clone();
+            },
+            K_CLEAR => {
+                pool[i].clear();
+                model[i].clear();
+            },
+            K_RESERVE => pool[i].reserve(op.b),
+            K_DROP => {
+                pool[i] = Tendril::new();
+                model[i].clear();
+            },
+            K_SEND_ROUND_TRIP => {
+                let t = std::mem::replace(&mut pool[i], Tendril::new());
+                let s: SendTendril<F> = if op.c % 2 == 0 { t.into_send() } else { SendTendril::from(t) };
+                // through the other atomicity and back
+                if op.c % 3 == 0 {
+                    let other: Tendril<F, Atomic> = Tendril::from(s);
+                    let other2 = other.clone();
+                    drop(other);
+                    let s2: SendTendril<F> = other2.into_send();
+                    let back: Tendril<F, NonAtomic> = Tendril::from(s2);
+                    pool[i] = Tendril::from(back.into_send());
+                } else {
+                    pool[i] = Tendril::from(s);
+                }
+            },
+            K_INTO_BYTES_ROUND_TRIP => {
+                let t = std::mem::replace(&mut pool[i], Tendril::new());
+                let b = t.into_bytes();
+                if b.as_ref() as &[u8] != &model[i][..] {
+                    return Err(ctx(format!("into_bytes gave {:?}, model {:?}", b.as_ref() as &[u8], model[i])));
+                }
+                match b.try_reinterpret::<F>() {
+                    Ok(t) => pool[i] = t,
+                    Err(_) => return Err(ctx("try_reinterpret back to the original format failed".into())),
+                }
+            },
+            K_AS_BYTES_CHECK => {
+                if pool[i].as_bytes().as_ref() as &[u8] != &model[i][..] {
+                    return Err(ctx("as_bytes differs from the model".into()));
+                }
+                if pool[i].try_reinterpret_view::<fmt::Bytes>().is_err() {
+                    return Err(ctx("try_reinterpret_view::<Bytes> failed".into()));
+                }
+            },
+            K_TRY_PUSH_CHAR => {
+                if let Some(c) = char::from_u32(op.c) {
+                    if let Some(r) = F::try_push_char(&mut pool[i], c) {
+                        let enc = F::encode_char(c);
+                        if r.is_ok() != enc.is_some() {
+                            return Err(ctx(format!("try_push_char({:?}) returned {:?}, model encodable={}", c, r, enc.is_some())));
+                        }
+                        if let Some(e) = enc {
+                            F::concat(&mut model[i], &e);
+                        }
+                    }
+                }
+            },
+            K_POP_FRONT_CHAR => {
+                if let Some(got) = F::pop_front_char(&mut pool[i]) {
+                    let want = F::first_char(&model[i]);
+                    if got != want.map(|w| w.0) {
+                        return Err(ctx(format!("pop_front_char returned {:?}, model {:?}", got, want)));
+                    }
+                    if let Some((_, n)) = want {
+                        model[i].drain(..n);
+                    }
+                }
+            },
+            K_POP_FRONT_CHAR_RUN => {
+                if let Some(got) = F::pop_front_char_run(&mut pool[i], op.c) {
+                    // model
+                    let mut pos = 0usize;
+                    let mut class = None;
+                    while let Some((ch, n)) = F::first_char(&model[i][pos..]) {
+                        let cl = classify(op.c, ch);
+                        match class {
+                            None => class = Some(cl),
+                            Some(c0) if c0 != cl => break,
+                            _ => {},
+                        }
+                        pos += n;
+                    }
+                    match (got, class) {
+                        (None, None) => {},
+                        (Some((t, r)), Some(c0)) => {
+                            if r != c0 || t.as_bytes().as_ref() as &[u8] != &model[i][..pos] {
+                                return Err(ctx(format!("pop_front_char_run returned ({:?},{r}), model ({:?},{c0})", t.as_bytes().as_ref() as &[u8], &model[i][..pos])));
+                            }
+                            let run: Vec<u8> = model[i].drain(..pos).collect();
+                            pool[j] = t;
+                            model[j] = run;
+                            if i == j {
+                                // the run replaced the remainder in the same slot
+                            }
+                        },
+                        (g, c) => return Err(ctx(format!("pop_front_char_run returned {:?}, model class {:?}", g.map(|x| x.1), c))),
+                    }
+                }
+            },
+            K_DEREF_MUT => {
+                let (t, m) = (&mut pool[i], &mut model[i]);
+                F::deref_mut_write(t, m, op.b, op.c as u8);
+            },
+            K_WRITE_ALL | K_EXTEND_WITH_BYTE => {
+                let (t, m) = (&mut pool[i], &mut model[i]);
+                F::bytes_only(t, m, op);
+            },
+            K_EXTEND_ITER => {
+                let (t, m) = (&mut pool[i], &mut model[i]);
+                F::extend_iter(t, m, &op.data);
+            },
+            K_SUBSET_ROUND_TRIP => {
+                let t = std::mem::replace(&mut pool[i], Tendril::new());
+                match F::subset_round_trip(t, &model[i]) {
+                    Ok(t) => pool[i] = t,
+                    Err(e) => return Err(fail("checked-op-result-differs", format!("op #{oi} on slot {i} ({}), content {:?}: {e}", F::NAME, model[i]))),
+                }
+            },
+            K_REINTERPRET_FROM_BYTES => {
+                let b: Tendril<fmt::Bytes, A> = Tendril::from_slice(&op.data[..]);
+                let ok = F::valid(&op.data);
+                match b.try_reinterpret::<F>() {
+                    Ok(t) => {
+                        if !ok {
+                            return Err(fail("checked-op-result-differs", format!("op #{oi}: Bytes {:?} reinterpreted as {} although invalid", op.data, F::NAME)));
+                        }
+                        pool[i] = t;
+                        model[i] = op.data.clone();
+                    },
+                    Err(orig) => {
+                        if ok {
+                            return Err(fail("checked-op-result-differs", format!("op #{oi}: Bytes {:?} not accepted as {} although valid", op.data, F::NAME)));
+                        }
+                        if orig.as_ref() as &[u8] != &op.data[..] {
+                            return Err(ctx("failed try_reinterpret did not give the original back".into()));
+                        }
+                    },
+                }
+            },
+            K_STRING_ROUND_TRIP => {
+                let t = std::mem::replace(&mut pool[i], Tendril::new());
+                pool[i] = F::string_round_trip(t);
+            },
+            K_EQ_ORD_CHECK => {
+                let eq = pool[i] == pool[j];
+                if eq != (model[i] == model[j]) {
+                    return Err(ctx(format!("== with slot {j} returned {eq}")));
+                }
+            },
+            _ => {},
+        }
+        // ---- oracle after every operation: every live tendril equals its model
+        for k in 0..POOL {
+            let bytes: &[u8] = pool[k].as_bytes().as_ref();
+            if bytes != &model[k][..] {
+                let class = if k == i || (k == j && matches!(op.kind, K_CLONE | K_POP_FRONT_CHAR_RUN | K_PUSH_SELF_CLONE)) || op.data.first().map(|d| *d as usize % POOL) == Some(k) {
+                    "value-differs"
+                } else {
+                    "other-tendril-changed"
+                };
+                return Err(fail(class, format!("after op #{oi} {} on slot {i} ({}): slot {k} holds {:?}, model {:?}", kind_name(op.kind), F::NAME, bytes, model[k])));
+            }
+            if pool[k].len32() as usize != model[k].len() {
+                return Err(fail("value-differs", format!("after op #{oi}: slot {k} len32 {} != model {}", pool[k].len32(), model[k].len())));
+            }
+            if !F::valid(bytes) {
+                return Err(fail("format-broken", format!("after op #{oi} {} ({}): slot {k} holds bytes {:?} that are not valid for the format", kind_name(op.kind), F::NAME, bytes)));
+            }
+        }
+        obs.op_done(op.kind, before, repr_class(&pool[i]));
+        digest = digest.wrapping_mul(0x100000001B3).wrapping_add(model[i].len() as u64 + ((op.kind as u64) << 32));
+    }
+    drop(pool);
+    Ok(digest)
+}
+
+/// Format / atomicity selector shared by all front ends.
+pub fn run_selected(fmt_id: u8, atomic: bool, ops: &[Op], obs: &mut dyn Observer) -> Result<u64, Fail> {
+    match (fmt_id % 5, atomic) {
+        (0, false) => run_history::<fmt::UTF8, NonAtomic>(ops, obs),
+        (0, true) => run_history::<fmt::UTF8, Atomic>(ops, obs),
+        (1, false) => run_history::<fmt::Bytes, NonAtomic>(ops, obs),
+        (1, true) => run_history::<fmt::Bytes, Atomic>(ops, obs),
+        (2, false) => run_history::<fmt::ASCII, NonAtomic>(ops, obs),
+        (2, true) => run_history::<fmt::ASCII, Atomic>(ops, obs),
+        (3, false) => run_history::<fmt::Latin1, NonAtomic>(ops, obs),
+        (3, true) => run_history::<fmt::Latin1, Atomic>(ops, obs),
+        (4, false) => run_history::<fmt::WTF8, NonAtomic>(ops, obs),
+        _ => run_history::<fmt::WTF8, Atomic>(ops, obs),
+    }
+}
+
+pub fn gen_selected(fmt_id: u8, rng: &mut Rng, max_ops: usize) -> Vec<Op> {
+    match fmt_id % 5 {
+        0 => gen_history::<fmt::UTF8>(rng, max_ops),
+        1 => gen_history::<fmt::Bytes>(rng, max_ops),
+        2 => gen_history::<fmt::ASCII>(rng, max_ops),
+        3 => gen_history::<fmt::Latin1>(rng, max_ops),
+        _ => gen_history::<fmt::WTF8>(rng, max_ops),
+    }
+}
+
+pub fn fmt_name(fmt_id: u8) -> &'static str {
+    ["UTF8", "Bytes", "ASCII", "Latin1", "WTF8"][(fmt_id % 5) as usize]
+}
+
+// ------------------------------------------------------------------ text encoding of histories
+
+pub fn ops_to_text(ops: &[Op]) -> String {
+    let mut s = String::new();
+    for o in ops {
+        s.push_str(&format!("{} {} {} {} ", o.kind, o.a, o.b, o.c));
+        if o.data.is_empty() {
+            s.push('-');
+        }
+        for b in &o.data {
+            s.push_str(&format!("{:02x}", b));
+        }
+        s.push('\n');
+    }
+    s
+}
+
+pub fn ops_from_text(s: &str) -> Vec<Op> {
+    let mut out = vec![];
+    for line in s.lines() {
+        let f: Vec<&str> = line.split_whitespace().collect();
+        if f.len() < 5 {
+            continue;
+        }
+        let data = if f[4] == "-" {
+            vec![]
+        } else {
+            (0..f[4].len() / 2).filter_map(|i| u8::from_str_radix(&f[4][2 * i..2 * i + 2], 16).ok()).collect()
+        };
+        out.push(Op { kind: f[0].parse().unwrap_or(0), a: f[1].parse().unwrap_or(0), b: f[2].parse().unwrap_or(0), c: f[3].parse().unwrap_or(0), data });
+    }
+    out
+}
